@@ -18,6 +18,26 @@ def genesis_cfg(seed):
             "maxGas": 40000000, "noBaseFee": False, "coinomics": True, "votingSecs": 20}
 
 
+def c20_epilogue(steps, i):
+    """C20 names restarts 'right after blocks that change EVM parameters': every C20 history ends with a
+    governance proposal on the EVM parameters (alternately one that succeeds and one whose second message
+    fails after the parameter change was executed), the end of its voting period, a restart, and Ethereum
+    transactions (contract creation included) on the restarted and on the continuous node."""
+    np = sum(1 for st in steps if st.get("ev") == "block" for t in st.get("txs", [])
+             if t.get("k") in ("gov_submit", "gov_toggle", "gov_evm_params"))
+    pid = np + 1
+    blk = lambda dt, txs: {"ev": "block", "dt": dt, "proposer": 0, "absent": [], "evidence": [], "txs": txs}
+    votes = [{"k": "gov_vote", "from": "v%d" % v, "id": pid, "opt": "yes"} for v in (1, 2, 3)]
+    return [
+        blk(5000, [{"k": "gov_evm_params", "from": "a1", "fail": i % 2 == 0}] + votes),
+        blk(61000, [{"k": "send", "from": "a1", "to": "a2", "amt": "1"}]),
+        {"ev": "restart"},
+        blk(5000, [{"k": "deploy", "from": "a2", "slots": 2}, {"k": "eth_send", "from": "a3", "to": "a4", "amt": "1000", "extraGas": 0},
+                   {"k": "spray", "from": "a5", "salt": 1}, {"k": "call", "from": "a6", "idx": 0}]),
+        blk(5000, [{"k": "deploy_empty", "from": "a1"}, {"k": "pc_delegate", "from": "a2", "val": 1, "amt": "1000"}]),
+    ]
+
+
 def run_scenario(wd, i, script, followers):
     """one scenario: generating replica + followers, each a separate OS process"""
     sp = os.path.join(wd, "s%d.json" % i)
@@ -62,6 +82,8 @@ def run_family(c, prop, mode, nscen, maxlen, followers, exhaustive=True):
         raise Infra("too few chain scripts: %d" % len(scripts))
     full = []
     for i, steps in enumerate(scripts):
+        if mode == "C20":
+            steps = steps + c20_epilogue(steps, i)
         full.append({"cfg": genesis_cfg(c.seed * 1000 + i), "steps": steps})
     outs = [None] * len(full)
     with concurrent.futures.ThreadPoolExecutor(max_workers=6) as ex:
